@@ -38,6 +38,7 @@ CONSTANTS Dims,           \* space dimensions
           Anisos(_),      \* nd |-> subset of {"iso", "aniso", "rotaniso"}
           Sills,          \* set of sills, in halves (2 = sill 1)
           Layouts,        \* subset of {"spread", "cluster", "nodes", "outside"}
+          Verrs,          \* data error variance: subset of {"const", "distinct", "extreme"}
           Keep(_),        \* symmetry reduction / thinning of the product (TRUE = keep the configuration)
           HeavyEvery      \* the heavy obligations are executed on one configuration out of HeavyEvery
 
@@ -68,9 +69,9 @@ EigenTolKrigingSPDENew == T(1, -5)       \* hard-coded in krigingSPDENew, 1000 i
 \* nu = alpha - nd/2 must be positive (Matern)
 NuOk(nd, a2) == a2 > nd
 
-Configs == UNION { { [nd |-> nd, mesh |-> mc, rot |-> rc, alpha2 |-> a2, aniso |-> an, sill2 |-> s, layout |-> l] :
+Configs == UNION { { [nd |-> nd, mesh |-> mc, rot |-> rc, alpha2 |-> a2, aniso |-> an, sill2 |-> s, layout |-> l, verr |-> ve] :
                        mc \in MeshChoices(nd), rc \in RotCodes(nd), a2 \in { a \in Alpha2s(nd) : NuOk(nd, a) },
-                       an \in Anisos(nd), s \in Sills, l \in Layouts } : nd \in Dims }
+                       an \in Anisos(nd), s \in Sills, l \in Layouts, ve \in Verrs } : nd \in Dims }
 Kept == { c \in Configs : Keep(c) }
 
 NTot(nd, nx) == IF nd = 1 THEN nx[1] ELSE IF nd = 2 THEN nx[1] * nx[2] ELSE nx[1] * nx[2] * nx[3]
@@ -105,6 +106,19 @@ DataPts(c) ==
 DataVals(c) == [i \in 1..Len(DataPts(c)) |-> ((7 * i) % 5) - 2]            \* small integers
 \* measurement-error variance = nugget of the model, as a fraction of the sill: 1/10 or 1/1000 (stiffer system)
 NuggetInv(c) == IF c.layout = "cluster" THEN 1000 ELSE 10
+\* Data error variance D = diag(s2_i) of the kriging system (Q + A' D^-1 A) x = A' D^-1 z:
+\*   "const"    the nugget effect of the model, the same for every datum (no variable V);
+\*   "distinct" a variance of measurement error per datum (locator V), all different: (i + 1) / 20 of the sill;
+\*   "extreme"  per datum, one very small (1/80 of the sill), one large (5 sills), the others 1/10, 3/20, ...
+\* With a variable V the model carries no nugget effect and every value is above the floor EpsNugget (1/100 of the
+\* sill, default of SPDEParam) under which the code raises the variances: the variance of datum i is V_i in every
+\* entry point, and the system can be assembled from the public parts Q, A and the V values alone.
+EpsNuggetInv == 100
+VerrFrac(c) ==     \* fractions <<num, den>> of the sill
+  IF c.verr = "const" THEN <<>>
+  ELSE [i \in 1..Len(DataPts(c)) |->
+          IF c.verr = "distinct" THEN <<i + 1, 20>>
+          ELSE IF i = 1 THEN <<1, 80>> ELSE IF i = 2 THEN <<5, 1>> ELSE <<i - 1, 20>>]
 
 -----------------------------------------------------------------------------
 (* Test vectors (integers) and the laws they instantiate                    *)
@@ -146,6 +160,7 @@ Obligations(c) == {
   O("OpEqualsMatrix.Diagonal", "OpEqualsMatrix", "le", TolSameMap, "extractDiag() of both forms = diagonal of Q"),
   O("OpEqualsMatrix.SPDEOpMatrix", "OpEqualsMatrix", "le", TolSameMap, "SPDEOpMatrix::evalDirect(e_i) = column i of Q + A' N A assembled from its public parts"),
   O("OpEqualsMatrix.SPDEOp", "OpEqualsMatrix", "le", TolSameMap, "SPDEOp::evalDirect(e_i) (matrix-free Q + A' N A) = the same assembled matrix"),
+  O("OpEqualsMatrix.MultiCond", "OpEqualsMatrix", "le", TolSameMap, "evalDirect(e_i) of PrecisionOpMultiConditional and PrecisionOpMultiConditionalCs = column i of Q + A' D^-1 A assembled from Q (PrecisionOpCs::getQ), A (ProjMatrix) and the data variances"),
   O("OpEqualsMatrix.MultiMatrix", "OpEqualsMatrix", "le", TolSameMap, "PrecisionOpMulti (matrix-free) = PrecisionOpMultiMatrix::getQ() on the basis"),
   \* ---- symmetric positive definite
   O("Symmetric.Q", "Symmetric", "le", TolSymmetric, "max |Q_ij - Q_ji| relative to max |Q_ij|"),
@@ -155,16 +170,16 @@ Obligations(c) == {
   \* ---- every linear solve satisfies its system
   O("SolveResidual.PrecisionOpCs", "SolveResidual", "le", TolDirectSolve, "PrecisionOpCs::evalInverse (Cholesky): backward error"),
   O("SolveResidual.Rhs", "SolveResidual", "le", TolSameMap, "computeRhs(z) = A' z / s2, relative to its largest entry"),
-  O("SolveResidual.MultiCondCs", "SolveResidual", "le", TolDirectSolve, "PrecisionOpMultiConditionalCs::evalInverse (Cholesky of Q + A'A/s2): backward error"),
+  O("SolveResidual.MultiCondCs", "SolveResidual", "le", TolDirectSolve, "PrecisionOpMultiConditionalCs::evalInverse (Cholesky): backward error against Q + A' D^-1 A assembled independently from its public parts (Q from PrecisionOpCs::getQ, A from the ProjMatrix, D from the nugget or the V values)"),
   O("SolveResidual.MultiCondCG", "SolveResidual", "le", Cg, "PrecisionOpMultiConditional::evalInverse (own CG) for every eps of CgEpsSet: |Ax-b| <= Safety sqrt(eps sum|b_i|)"),
   O("SolveResidual.MultiCondCGvsAssembled", "SolveResidual", "le", Cg, "the same solution against the assembled matrix Q + A'A/s2"),
   O("SolveResidual.EigenCG", "SolveResidual", "le", Cg, "LinearOpCGSolver on SPDEOp for every tol of EigenTolSet: |Ax-b| <= Safety tol |b|"),
   O("SolveResidual.SPDEOpMatrix", "SolveResidual", "le", TolDirectSolve, "SPDEOpMatrix::kriging (Cholesky): backward error"),
   \* ---- Cholesky versus conjugate gradient
   O("CholEqualsCG.MultiCond", "CholEqualsCG", "le", Cg, "solutions of the two multi-conditional operators: |x_chol - x_cg| <= Safety sqrt(eps sum|b_i|) / lambda_min"),
-  O("CholEqualsCG.KrigingSPDE", "CholEqualsCG", "le", Cg, "SPDE(useCholesky = 1 / 0).compute, estimates at the targets (default eps of the class)"),
+  O("CholEqualsCG.KrigingSPDE", "CholEqualsCG", "le", Cg, "SPDE(useCholesky = 1 / 0).compute and krigingSPDE, estimates at the targets: the two modes against each other and each against the solution of the independently assembled system (default eps of the class)"),
   O("CholEqualsCG.Quadratic", "CholEqualsCG", "le", Cg, "SPDE::computeQuad, the quadratic term of the log-likelihood: Safety |rhs| sqrt(eps sum|b_i|) / lambda_min"),
-  O("CholEqualsCG.KrigingSPDENew", "CholEqualsCG", "le", Cg, "krigingSPDENew(useCholesky = 1 / 0): Safety tol |rhs| / lambda_min, tol = EigenTolKrigingSPDENew"),
+  O("CholEqualsCG.KrigingSPDENew", "CholEqualsCG", "le", Cg, "krigingSPDENew(useCholesky = 1 / 0), against each other and against the assembled system: Safety tol |rhs| / lambda_min, tol = EigenTolKrigingSPDENew"),
   O("CholEqualsCG.SPDEOp", "CholEqualsCG", "le", Cg, "SPDEOpMatrix::kriging versus SPDEOp::kriging (Eigen CG) for every tol of EigenTolSet"),
   O("CholEqualsCG.LogDetOp", "CholEqualsCG", "le", T(1, -6), "log det (Q + A'A/s2): computeLogDetOp of the two multi-conditional operators (the matrix-free one is a Monte-Carlo estimate: see LogDetStochastic)"),
   O("CholEqualsCG.LogLikelihood", "CholEqualsCG", "le", T(1, -6), "SPDE::computeLogLikelihood in the two modes"),
@@ -186,11 +201,15 @@ Covered(c) == /\ \A cl \in Clauses : \E o \in Obligations(c) : o.clause = cl
               /\ \A o1, o2 \in Obligations(c) : o1.name = o2.name => o1 = o2
               /\ Safety >= 100
               /\ Len(DataPts(c)) >= 4
+              /\ c.verr # "const" =>        \* the variances differ between data and stay above the floor
+                    /\ Len(VerrFrac(c)) = Len(DataPts(c))
+                    /\ \A i, j \in DOMAIN VerrFrac(c) : i # j => VerrFrac(c)[i][1] * VerrFrac(c)[j][2] # VerrFrac(c)[j][1] * VerrFrac(c)[i][2]
+                    /\ \A i \in DOMAIN VerrFrac(c) : VerrFrac(c)[i][1] * EpsNuggetInv > VerrFrac(c)[i][2]
               /\ \A i \in DOMAIN DataPts(c) : \A k \in 1..c.nd : DataPts(c)[i][k] >= 0
 
 ConfigCase(c) ==
   [k |-> "config", c |-> c, n |-> NApices(c), nu2 |-> c.alpha2 - c.nd, ranges |-> RangeCells(c), anisoang |-> AnisoAngleCode(c),
-   data |-> DataPts(c), z |-> DataVals(c), nuggetinv |-> NuggetInv(c),
+   data |-> DataPts(c), z |-> DataVals(c), nuggetinv |-> NuggetInv(c), verrfrac |-> VerrFrac(c),
    v1 |-> Vec1(NApices(c)), v2 |-> Vec2(NApices(c)), lincoefs |-> LinCoefs,
    cgeps |-> CgEpsDefault, cgepsset |-> CgEpsSet, cgnitermax |-> CgNIterMax, eigentolset |-> EigenTolSet,
    eigentolnew |-> EigenTolKrigingSPDENew, safety |-> Safety, heavyevery |-> HeavyEvery]
